@@ -21,7 +21,9 @@ func NewTimedTransaction(ctx context.Context, timeout time.Duration, finally Fin
 	t := &TimedTransaction{
 		TransactionBase: NewTransactionBase(finally),
 	}
-	t.timer = time.AfterFunc(timeout, func() { t.Fail(ErrTimeout) })
+	// The timer callback must not touch t.timer: it can fire before the
+	// assignment below is finished.
+	t.timer = time.AfterFunc(timeout, func() { t.TransactionBase.Fail(ErrTimeout) })
 	go func() {
 		select {
 		case <-ctx.Done():
